@@ -5,6 +5,7 @@ package main
 
 import (
 	"go/token"
+	"strings"
 
 	"golang.org/x/tools/go/ssa"
 )
@@ -134,7 +135,19 @@ func init() {
 	vreg("vOpt", func(p *Path, th *thread, caller *frame, pos token.Pos, fn *ssa.Function, args []Value) Value {
 		name, _ := concStr(args[0])
 		v := int(int64(termArg(args[1]).Val))
+		if strings.HasPrefix(name, "callbound:") {
+			if p.callBounds == nil {
+				p.callBounds = map[string]int{}
+				p.callCounts = map[string]int{}
+			}
+			p.callBounds[strings.TrimPrefix(name, "callbound:")] = v
+			return nil
+		}
 		switch name {
+		case "hostile-budget":
+			p.hostileBudget = v
+		case "forged-first-byte":
+			p.forgedFirst = v
 		case "preempt":
 			p.preempt = v
 		case "shuffle":
